@@ -35,6 +35,7 @@ package daemon
 
 //@ func ucrednetGetWithInterfacesImpl
 //@   props C26
+//@   arith checked
 //@   ensures err != nil ==> ucred == nil
 //@   ensures err == nil ==> ucred != nil && ucred.Pid != ucrednetNoProcess && ucred.Uid != ucrednetNobody
 
@@ -88,6 +89,7 @@ package daemon
 //@   assigns http.Request.RemoteAddr
 //@   ensures result == nil ==> old(onSnapdSocket(ucred) || onSnapSocket(ucred))
 //@   ensures result == nil && !old(onSnapdSocket(ucred)) ==> final(foundMatchingInterface)
+//@   loop 0: invariant foundMatchingInterface ==> exists k string :: has(conns, k) && !conns[k].Undesired && !conns[k].HotplugGone && exists j int :: 0 <= j && j < len(interfaceNames) && interfaceNames[j] == conns[k].Interface
 
 // ---- the dispatcher: a handler runs only after its access check passed ----------------------
 
